@@ -84,7 +84,8 @@ func (a *Analyzer) Normalize(f Facts) (Facts, map[string]*Term) {
 			l, r := at.Args[i], at.Args[1-i]
 			if l.Op == "ext" && len(l.Args) == 1 && l.Args[0].Op == "call" && a.calleeOf(l.Args[0]) != nil &&
 				!(r.Op == "ext" && len(r.Args) == 1 && r.Args[0].Op == "call" && r.Key() > l.Key()) {
-				if !r.ContainsKey(l.Key()) && r.Key() != tNil.Key() {
+				internal := r.Contains(func(t *Term) bool { return t.Op == "phi" || t.Op == "unk" || t.Op == "make" })
+				if !r.ContainsKey(l.Key()) && r.Key() != tNil.Key() && !internal {
 					if _, dup := rw[l.Key()]; !dup {
 						rw[l.Key()] = r
 					}
